@@ -11,7 +11,7 @@ TRY_TYPES = ["u8", "i32", "bool", "String", "opt", "char", "i64", "u16"]
 
 def isas_def(rng, did):
     n = rng.choice([1, 2, 3, 4, 5, 6])
-    generics = rng.choice(["none", "none", "ty", "lt", "tywhere", "const"])
+    generics = rng.choice(["none", "none", "ty", "lt", "tywhere", "const", "tydef", "constdef"])
     idents = rng.sample(IDENTS13, n)
     vs = []
     for ident in idents:
@@ -22,7 +22,7 @@ def isas_def(rng, did):
                 t = rng.choice(TRY_TYPES)
                 tys = [t] * nf                     # same type, distinct values: a permuted tuple still type-checks
             else:
-                pool = TRY_TYPES + (["T"] if generics in ("ty", "tywhere") else []) + (["str"] if generics == "lt" else [])
+                pool = TRY_TYPES + (["T"] if generics in ("ty", "tywhere", "tydef") else []) + (["str"] if generics == "lt" else [])
                 tys = [rng.choice(pool) for _ in range(nf)]
             fs = [field(t) for t in tys]
         elif kind == "named":
